@@ -853,7 +853,7 @@ func checkGuardCoversUseRule(p *core.Program, r *core.Report, ps *types.Named, r
 	eng := tf.NewEngine(core.InRepo, 0)  // the prover is analysed without inlining the validator
 	veng := tf.NewEngine(core.InRepo, 3) // the validator may use small in-repo helpers
 	for _, fn := range p.RepoFuncs() {
-		if fn.Signature.Recv() == nil || namedOf(fn.Signature.Recv().Type()) != ps || fn.Signature.Results().Len() != 2 || requestParamIndex(fn) < 0 || delegateTarget(fn) != nil {
+		if fn.Signature.Recv() == nil || namedOf(fn.Signature.Recv().Type()) != ps || fn.Signature.Results().Len() != 2 || requestParamIndex(fn) < 0 || (delegateTarget(fn) != nil || composesProvers(fn)) {
 			continue
 		}
 		if witnessCircuitType(fn) == nil || !strings.Contains(fn.Signature.Results().At(0).Type().String(), "Proof") {
